@@ -11,8 +11,8 @@ func   := name neg(0|1) K param^K
 rule   := F func^F func            -- the last func is the outbound
 prog   := N rule^N
 geo    := G (kind(site|ip) file code (K param^K | !))^G      -- `!` = load error; absent = load error
-labels := L (func (F id mark must | M))^L                     -- what an outbound decides; M = must_rules
-P <backend:scan|scansplit|sel> <cat:dns|sub|node|subnode> <alias:0|1> geo labels FB id mark must
+labels := L (func (F id mark must | M))^L                     -- what an outbound decides (after the must_ rewrite); M = must_rules
+P <backend:scan|scansplit|sel|selnode> <cat:dns|sub|node|subnode> <alias:0|1> geo labels FB id mark must FBW func
   A n (name key val)^n  GN n name^n  prog
       → opt=<prog after the pipeline | err> split=<#rules of the category | - | err>
 q <bits|-> <gbits|->
@@ -191,6 +191,9 @@ structure Ctx where
   final : Option Prog
   /-- the program after alias/dat only (then split) -/
   rawFinal : Option Prog
+  /-- `selnode` only: the node-category rules (`final` holds the subnode-category rules) -/
+  final2 : Option Prog
+  rawFinal2 : Option Prog
   /-- for every rule of `final`: did it absorb a neighbour -/
   mergedFlags : List Bool
   /-- what-if variants of the pipeline (sensitivity counters) -/
@@ -216,6 +219,8 @@ def parseCtx (ts : List String) : Option Ctx := do
   let (fid, ts) ← pNat ts
   let (fmark, ts) ← pNat ts
   let (fmust, ts) ← pNat ts
+  let (_, ts) ← expect "FBW" ts
+  let (fbw, ts) ← pFunc ts
   let (_, ts) ← expect "A" ts
   let (atoms, ts) ← pCounted pAtom ts
   let (_, ts) ← expect "GN" ts
@@ -224,11 +229,25 @@ def parseCtx (ts : List String) : Option Ctx := do
   if !ts.isEmpty then none
   let geo := mkGeo ges
   let aliasing := al == 1
-  let expanded := datOpt geo (if aliasing then aliasOpt prog else prog)
+  -- traffic: the rules reach the call site through config.New, which rewrites the must_ shorthand
+  let prog0 := if aliasing then patchMustOpt prog else prog
+  let expanded := datOpt geo (if aliasing then aliasOpt prog0 else prog0)
   let out := if aliasing then trafficPipeline geo prog else dnsPipeline geo prog
-  let split (p : Option Prog) : Option Prog := if backend == "scan" then p else p.bind (splitCat cat)
+  let split (p : Option Prog) : Option Prog :=
+    if backend == "scan" then p
+    else if backend == "selnode" then p.bind (splitCat .subnode)
+    else p.bind (splitCat cat)
+  let split2 (p : Option Prog) : Option Prog := if backend == "selnode" then p.bind (splitCat .node) else none
   let atomIx := (atoms.zipIdx).foldl (fun m (a, i) => if m.contains a then m else m.insert a i) {}
-  let outsKnown := prog.all fun r => ls.any fun l => decide (l.1 = r.out)
+  let known (o : Func) : Bool := ls.any fun l => decide (l.1 = o)
+  let fbOut := if aliasing then patchOut fbw else fbw
+  let outsKnown := (prog0.all fun r => known r.out) && (backend != "scan" || known fbOut)
+  -- the fallback decision: what the (rewritten) written fallback decides; other backends pass it as numbers
+  let fb : Dec := if backend == "scan" then
+      match mkParseOut ls fbOut with
+      | .final d => d
+      | .mustRules => (99998, 0, false)
+    else (fid, fmark, fmust == 1)
   let atomsKnown := match expanded with
     | some e => e.all fun r => r.funcs.all fun f => f.params.all fun p => atomIx.contains (f.name, p)
     | none => true
@@ -238,8 +257,9 @@ def parseCtx (ts : List String) : Option Ctx := do
   let mergedFlags := match out with
     | some o => ((o.zip merged).filter fun (r, _) => backend == "scan" || classify r = some cat).map (·.2)
     | none => []
-  pure { backend, cat, aliasing, geo, parseOut := mkParseOut ls, fb := (fid, fmark, fmust == 1),
-         atoms, guardNames := gn, prog, out, final := split out, rawFinal := split expanded, mergedFlags,
+  pure { backend, cat, aliasing, geo, parseOut := mkParseOut ls, fb,
+         atoms, guardNames := gn, prog, out, final := split out, rawFinal := split expanded,
+         final2 := split2 out, rawFinal2 := split2 expanded, mergedFlags,
          variants := [split (expanded.map variantNeg), split (expanded.map variantVal), split (expanded.map variantName)],
          atomIx, complete := outsKnown && atomsKnown }
 
@@ -277,11 +297,22 @@ def mkSem (c : Ctx) (bits gbits : Array Char) : Sem Dec :=
     parseOut := c.parseOut
     perValue := fun n => ["port", "sport", "pname", "dscp", "qtype", "upstream"].contains n }
 
-def runFinal (c : Ctx) (S : Sem Dec) (p : Option Prog) : Option (Dec × Bool) :=
+/-- the same `Sem` with `δ = Option Dec` (`none` = no rule matched), for `nodeLookup` -/
+def optSem (S : Sem Dec) : Sem (Option Dec) :=
+  { atom := S.atom, guard := S.guard, emptyVal := S.emptyVal, perValue := S.perValue
+    parseOut := fun o => match S.parseOut o with
+      | .final d => .final (some d)
+      | .mustRules => .mustRules }
+
+def runFinal (c : Ctx) (S : Sem Dec) (p p2 : Option Prog) (tagged : Bool) : Option (Dec × Bool) :=
   match p with
   | none => none
   | some p =>
-    if c.backend == "sel" then some (selCompiled S p c.fb false)
+    if c.backend == "selnode" then
+      match p2 with
+      | none => none
+      | some q => some ((nodeLookup (optSem S) tagged p q).getD c.fb, false)
+    else if c.backend == "sel" then some (selCompiled S p c.fb false)
     else compiledDecision S p c.fb false
 
 def sOptDec : Option (Dec × Bool) → String
@@ -290,19 +321,26 @@ def sOptDec : Option (Dec × Bool) → String
 
 def answer (c : Ctx) (bits gbits : Array Char) : String :=
   let S := mkSem c bits gbits
-  let U := userSem S c.geo c.aliasing
-  let spec :=
+  let U := if c.aliasing then userSemTraffic S c.geo else userSem S c.geo false
+  let tagged := bitAt gbits 0
+  let spec : Dec × Bool :=
     if c.backend == "scan" then firstMatchAst U c.prog c.fb false
+    else if c.backend == "selnode" then
+      -- the precedence of `MatchNodeUpstream` on the written list (`Props.node_lookup_decides_as_written`)
+      let OG := optSem S
+      ((orElseLookup (if tagged then (firstMatchAst (userSem (withCat OG .subnode) c.geo false) c.prog none false).1 else none)
+        (firstMatchAst (userSem (withCat OG .node) c.geo false) c.prog none false).1).getD c.fb, false)
     else firstMatchAst (withCat U c.cat) c.prog c.fb false
-  let dec := runFinal c S c.final
-  let raw := runFinal c S c.rawFinal
-  let astDec := c.final.map fun p => firstMatchAst S p c.fb false
+  let dec := runFinal c S c.final c.final2 tagged
+  let raw := runFinal c S c.rawFinal c.rawFinal2 tagged
+  let astDec := if c.backend == "selnode" then none else c.final.map fun p => firstMatchAst S p c.fb false
   let sens := c.variants.map fun v =>
     match v, astDec with
     | some p, some d => if firstMatchAst S p c.fb false == d then '0' else '1'
     | _, _ => '0'
   let m := match c.final with
     | some p =>
+      if c.backend == "selnode" then false else
       match firstMatchIdx S p 0 with
       | some i => c.mergedFlags.getD i false
       | none => false
@@ -323,8 +361,11 @@ def handle (st : Option Ctx) (line : String) : Option Ctx × String :=
         else match c.final with
           | some p => toString p.length
           | none => "err"
-      (some c, s!"opt={o} split={sp}")
+      (some c, s!"opt={o} split={sp} fb={sDec (c.fb, false)}")
     | none => (none, "bad-op")
+  | ["sharedcache", _] =>
+    -- a DatReaderOptimizer that has served other rule lists before must normalise like a fresh one
+    (st, "shared=same")
   | ["pipeline", site, _] =>
     -- which optimizer list the theorems cover for this call site; no optimizer options, plain glue
     (st, "pipeline=" ++ ",".intercalate (if site == "traffic" then trafficStages else dnsStages) ++
